@@ -19,11 +19,11 @@ from sim.model import emit, prog as progmod
 from sim.engines import render as R
 
 FOCI_BY_STRATUM = {
-    "clean": ["compcache", "misc", "media", "classattr", "classattr", "all"],
+    "clean": ["compcache", "compcache", "misc", "media", "classattr", "classattr", "all"],
     "provide": ["provide", "provide", "compcache", "classattr", "all"],
     "lru": ["lru"],
     "media": ["media", "all"],
-    "mixed": ["provide", "compcache", "lru", "media", "misc", "classattr", "all"],
+    "mixed": ["provide", "compcache", "compcache", "lru", "media", "misc", "classattr", "all"],
     "extends": ["tplflag", "tplflag", "tplflag", "misc", "compcache", "classattr", "all"],
     "view": ["misc", "misc", "compcache", "provide", "all"],
 }
@@ -535,8 +535,10 @@ def sweep_plan(ch, j, spec, solo, K, set_id=None):
             # budget smaller than the space still covers every line once
             a_ = ((0, 1), (1, 0))[oi][0]
             firsts = [c for c in solo["task_first_sites"][a_].get(f, []) if 1 <= c <= ha]
-            rest = [c for c in range(1, ha + 1) if c not in set(firsts)]
-            v[3] = (firsts + rest)[off] - 1
+            lasts = [c for c in solo.get("task_last_sites", [{}, {}])[a_].get(f, []) if 1 <= c <= ha and c not in set(firsts)]
+            head = firsts + lasts          # ... then before the LAST execution of each line, then everything else
+            rest = [c for c in range(1, ha + 1) if c not in set(head)]
+            v[3] = (head + rest)[off] - 1
     else:
         v = [0, 0, 0, 0, 0]
     focus = foci[ch.draw_or(v[0], len(foci), "sw_focus")]
@@ -581,7 +583,8 @@ def run(ch, params, decoded=False):
             out = {"results": results, "steps": [t.steps for t in s.tasks], "shared": [t.shared_steps for t in s.tasks],
                    "groups": dict(zip(schedmod.GROUPS, s.group_counts)), "end": setup.end_state(),
                    "task_groups": [dict(zip(schedmod.GROUPS, t.group_counts)) for t in s.tasks],
-                   "task_first_sites": [dict(zip(schedmod.GROUPS, t.first_sites)) for t in s.tasks]}
+                   "task_first_sites": [dict(zip(schedmod.GROUPS, t.first_sites)) for t in s.tasks],
+                   "task_last_sites": [dict(zip(schedmod.GROUPS, [sorted(d.values()) for d in t.last_sites])) for t in s.tasks]}
             setup.cleanup()
         except BaseException as e:
             out = {"harness_error": repr(e), "tb": traceback.format_exc()[-2000:]}
